@@ -1,5 +1,4 @@
 //! C17 — re-running is idempotent and the output depends only on the latest inputs (histories of runs, real binary).
-use crate::c06::generate;
 use crate::cli;
 use crate::common::*;
 use crate::model::*;
@@ -17,6 +16,18 @@ pub struct Case {
     pub seq: Vec<usize>,
     pub lang: Lang,
     pub folder_mode: bool,
+    /// per version: which typeshare.toml accompanies the sources (0 none; 1, 2: Swift CodableVoid constraints / default
+    /// decorators, i.e. settings that change what the shared Codable.swift has to contain)
+    #[serde(default)]
+    pub cfg_variant: Vec<u8>,
+}
+
+fn variant_toml(v: u8) -> Option<&'static str> {
+    match v % 3 {
+        1 => Some("[swift]\ncodablevoid_constraints = [\"Equatable\"]\n"),
+        2 => Some("[swift]\ndefault_decorators = [\"Sendable\"]\ncodablevoid_constraints = [\"Hashable\", \"Sendable\"]\n"),
+        _ => None,
+    }
 }
 
 fn strip_for(lang: Lang, ws: &Workspace) -> Workspace {
@@ -68,9 +79,9 @@ impl SubCheck for C17 {
             })
             .prop_flat_map(|(items, slots, vers, lang, folder_mode)| {
                 let nv = vers.len();
-                (Just(items), Just(slots), Just(vers), Just(lang), Just(folder_mode), proptest::collection::vec(0usize..nv, 2..=6))
+                (Just(items), Just(slots), Just(vers), Just(lang), Just(folder_mode), proptest::collection::vec(0usize..nv, 2..=6), proptest::collection::vec(prop_oneof![2 => Just(0u8), 1 => Just(1u8), 1 => Just(2u8)], nv))
             })
-            .prop_map(|(items, slots, vers, lang, folder_mode, mut seq)| {
+            .prop_map(|(items, slots, vers, lang, folder_mode, mut seq, cfg_variant)| {
                 let versions: Vec<Workspace> = vers
                     .iter()
                     .map(|(mask, assign)| {
@@ -83,7 +94,7 @@ impl SubCheck for C17 {
                 if seq.len() >= 2 && seq[0] % 2 == 0 {
                     seq[1] = seq[0];
                 }
-                Case { versions, seq, lang, folder_mode }
+                Case { versions, seq, lang, folder_mode, cfg_variant }
             })
             .boxed()
     }
@@ -124,16 +135,30 @@ impl SubCheck for C17 {
             }
             // the run into the persistent location
             let cfg = crate::c06::cfg_for_cli();
-            let mut args = cli::lang_args(lang, &cfg);
-            if case.folder_mode {
-                args.push("-d".into());
-                args.push(persist.to_string_lossy().into_owned());
-            } else {
-                args.push("-o".into());
-                args.push(persist.join(format!("out.{}", lang.ext())).to_string_lossy().into_owned());
+            let toml = variant_toml(case.cfg_variant.get(v).copied().unwrap_or(0));
+            let toml_path = root.join("version.toml");
+            if let Some(t) = toml {
+                std::fs::write(&toml_path, t).unwrap();
             }
-            args.push(tree.to_string_lossy().into_owned());
-            let r = cli::run(&args, &root, &[], Duration::from_secs(20));
+            let args_for = |dest: &std::path::Path| -> Vec<String> {
+                let mut args = cli::lang_args(lang, &cfg);
+                if toml.is_some() {
+                    args.push("-c".into());
+                    args.push(toml_path.to_string_lossy().into_owned());
+                }
+                if case.folder_mode {
+                    args.push("-d".into());
+                    args.push(dest.to_string_lossy().into_owned());
+                } else {
+                    args.push("-o".into());
+                    args.push(dest.join(format!("out.{}", lang.ext())).to_string_lossy().into_owned());
+                }
+                args.push(tree.to_string_lossy().into_owned());
+                args
+            };
+            // every other run sees its per-file results in reverse arrival order: the output may not depend on that
+            let env: Vec<(String, String)> = if step % 2 == 1 { vec![("TYPESHARE_VERIF_ORDER".into(), "rev".into())] } else { vec![] };
+            let r = cli::run(&args_for(&persist), &root, &env, Duration::from_secs(20));
             runs += 1;
             if !r.ok() {
                 if counting {
@@ -143,17 +168,20 @@ impl SubCheck for C17 {
                 continue; // nothing is claimed after a failing run
             }
             // reference: the same version into an empty location
-            let reference = match generate(&tree, &root.join("ref"), lang, case.folder_mode, &[]) {
-                Ok(o) => o,
-                Err(_) => {
-                    prev_version = Some(v);
-                    continue;
-                }
-            };
+            let refdir = root.join("ref");
+            let _ = std::fs::remove_dir_all(&refdir);
+            std::fs::create_dir_all(&refdir).unwrap();
+            let rr = cli::run(&args_for(&refdir), &root, &[], Duration::from_secs(20));
+            if !rr.ok() {
+                prev_version = Some(v);
+                continue;
+            }
+            let reference = crate::c06::OutputSet(cli::read_tree(&refdir));
             runs += 1;
             let edit = match prev_version {
                 None => "first-run",
                 Some(pv) if pv == v => "same-version-repeat",
+                Some(pv) if case.versions.get(pv).map(|a| a.tree()) == case.versions.get(v).map(|a| a.tree()) => "same-sources-other-config",
                 Some(_) => "version-change",
             };
             for (rel, want) in &reference.0 {
@@ -199,7 +227,7 @@ impl SubCheck for C17 {
 }
 
 pub fn run(run: &Run) {
-    run.set_rule("histories: 2-4 versions of a source tree drawn from one pool of 3-10 items (each version keeps a subset and distributes it over files/crates in its own way: types are added, removed, moved between crates; one pool item uses () so Swift's Codable.swift comes and goes), a run sequence of length 2-6 over the versions with repetitions, single-file or folder mode, one language. After every run that exits 0, with every pre-existing output file back-dated to a fixed old instant: (a) each file a run of that version into an empty location creates exists with identical bytes; (b) each such file whose bytes were already there keeps its modification time and inode. Nothing is claimed about stale files of removed crates or after a failing run. Non-trivial = the sequence contains an immediate repeat and a change of version.");
+    run.set_rule("histories: 2-4 versions of a source tree drawn from one pool of 3-10 items (each version keeps a subset and distributes it over files/crates in its own way: types are added, removed, moved between crates; one pool item uses () so Swift's Codable.swift comes and goes; a version may come with a typeshare.toml whose Swift settings change what Codable.swift has to contain), a run sequence of length 2-6 over the versions with repetitions, single-file or folder mode, one language. Every other run receives its per-file results in reverse arrival order (hook). After every run that exits 0, with every pre-existing output file back-dated to a fixed old instant: (a) each file a run of that version into an empty location creates exists with identical bytes; (b) each such file whose bytes were already there keeps its modification time and inode. Nothing is claimed about stale files of removed crates or after a failing run. Non-trivial = the sequence contains an immediate repeat and a change of version.");
     run.assume("mtime is observed against a back-dated instant set with File::set_modified, so a rewrite is visible regardless of timestamp granularity");
     if !cli::bin_available() {
         run.inconclusive("typeshare binary not built");
